@@ -296,10 +296,10 @@ func c41Decision(rt *rapid.T, c *ev.Collector, env *c41Env) {
 		rt.Fatalf("VF-VIOLATION: property=C41 pool key does not parse: %v", err)
 	}
 	cert := &ssh.Certificate{
-		Key:      subjPub,
-		Serial:   pick(rt, "serial", []uint64{0, 1, 7, 1<<63 - 1, 1 << 63, 1<<64 - 1}),
-		CertType: pick(rt, "certtype", []uint32{1, 1, 1, 2, 2, 2, 0, 3, 1<<32 - 1}),
-		KeyId:    pick(rt, "keyid", []string{"", "id", "key id with spaces", "ü", strings.Repeat("k", 70)}),
+		Key:        subjPub,
+		Serial:     pick(rt, "serial", []uint64{0, 1, 7, 1<<63 - 1, 1 << 63, 1<<64 - 1}),
+		CertType:   pick(rt, "certtype", []uint32{1, 1, 1, 2, 2, 2, 0, 3, 1<<32 - 1}),
+		KeyId:      pick(rt, "keyid", []string{"", "id", "key id with spaces", "ü", strings.Repeat("k", 70)}),
 		ValidAfter: after, ValidBefore: before,
 		Reserved: pick(rt, "reserved", [][]byte{nil, nil, {}, {0}, []byte("reserved bytes")}),
 	}
@@ -698,6 +698,145 @@ func c41Reencode(rt *rapid.T, c *ev.Collector, env *c41Env) {
 	}
 }
 
+// c41Grammar derives re-encodings from the certificate's wire grammar: one
+// length-prefixed field is chosen among ALL fields at every nesting level
+// (nonce, key fields, key id, principals list and entries, option lists, each
+// name / data / embedded value, reserved, the signature key and every field
+// inside it, the signature, its format and blob and the mpints inside an ECDSA
+// blob) and is given trailing bytes inside the field, merged with or split from
+// its neighbour, has its boundary shifted, or (mpints) a non-minimal encoding.
+// The CA signature is kept.  Expected: rejected by ParsePublicKey, or rejected
+// by CheckCert unless the CA signature verifies over the received bytes.
+func c41Grammar(rt *rapid.T, c *ev.Collector, env *c41Env) {
+	rc, subj, ca := c41ValidRef(rt, env)
+	orig := rc.Bytes()
+	root := rk.CertTree(rc, ca.ref)
+	if !bytes.Equal(root.Encode(), orig) {
+		c.Inconclusive("certificate grammar tree does not reproduce the certificate bytes")
+		rt.Fatalf("VF-INCONCLUSIVE: CertTree encoding differs")
+	}
+	// pick a region of the grammar first, then a field in it, so that the deep
+	// fields (inside the signature key, the option values, the signature) are as
+	// frequent as the top-level ones
+	groups := map[string][]rk.NodeRef{}
+	var order []string
+	for _, r := range root.StrNodes() {
+		g := strings.SplitN(strings.SplitN(r.N.Name, ".", 2)[0], "(", 2)[0]
+		switch g {
+		case "type", "nonce", "keyid", "reserved":
+			g = "simple"
+		}
+		if _, ok := groups[g]; !ok {
+			order = append(order, g)
+		}
+		groups[g] = append(groups[g], r)
+	}
+	sort.Strings(order)
+	refs := groups[order[rapid.IntRange(0, len(order)-1).Draw(rt, "region")]]
+	ref := refs[rapid.IntRange(0, len(refs)-1).Draw(rt, "field")]
+	n := ref.N
+	ops := []string{"tail-inside", "tail-inside", "tail-inside", "merge-next", "split", "shift-boundary", "len-minus-1"}
+	if n.Mpint != nil {
+		ops = append(ops, "mpint-pad", "mpint-pad")
+	}
+	op := pick(rt, "op", ops)
+	var next *rk.Node
+	if ref.Index+1 < len(ref.Parent.Kids) && ref.Parent.Kids[ref.Index+1].Str {
+		next = ref.Parent.Kids[ref.Index+1]
+	}
+	detail := ""
+	switch op {
+	case "tail-inside":
+		k := pick(rt, "taillen", []int{1, 4, 32, 8, 5})
+		switch pick(rt, "tailkind", []string{"zeros", "random", "sibling", "self"}) {
+		case "zeros":
+			n.Tail = make([]byte, k)
+			detail = fmt.Sprintf("%d zeros", k)
+		case "random":
+			n.Tail = gen.RandBytes(rt, "tailbytes", k)
+			detail = fmt.Sprintf("%d random", k)
+		case "sibling":
+			sib := ref.Parent.Kids[rapid.IntRange(0, len(ref.Parent.Kids)-1).Draw(rt, "sibling")]
+			n.Tail = sib.Encode()
+			detail = "copy of sibling " + sib.Name
+		default:
+			n.Tail = n.Encode()
+			detail = "copy of itself"
+		}
+		if len(n.Tail) == 0 {
+			n.Tail = []byte{0}
+		}
+	case "merge-next":
+		if next == nil {
+			op = "n.a."
+			break
+		}
+		// one field holding the content of both
+		merged := &rk.Node{Name: n.Name + "+" + next.Name, Str: true, Bytes: append(n.Encode()[4:], next.Encode()[4:]...)}
+		kids := append([]*rk.Node{}, ref.Parent.Kids[:ref.Index]...)
+		kids = append(kids, merged)
+		ref.Parent.Kids = append(kids, ref.Parent.Kids[ref.Index+2:]...)
+	case "split":
+		body := n.Encode()[4:]
+		if len(body) < 1 {
+			op = "n.a."
+			break
+		}
+		at := rapid.IntRange(0, len(body)).Draw(rt, "splitat")
+		a := &rk.Node{Name: n.Name + "/a", Str: true, Bytes: body[:at]}
+		b := &rk.Node{Name: n.Name + "/b", Str: true, Bytes: body[at:]}
+		kids := append([]*rk.Node{}, ref.Parent.Kids[:ref.Index]...)
+		kids = append(kids, a, b)
+		ref.Parent.Kids = append(kids, ref.Parent.Kids[ref.Index+1:]...)
+	case "shift-boundary":
+		// the field swallows the first byte(s) of what follows it in its parent
+		if ref.Index+1 >= len(ref.Parent.Kids) {
+			op = "n.a."
+			break
+		}
+		follow := ref.Parent.Kids[ref.Index+1].Encode()
+		k := rapid.IntRange(1, min(4, len(follow))).Draw(rt, "shift")
+		grown := &rk.Node{Name: n.Name, Str: true, Bytes: append(n.Encode()[4:], follow[:k]...)}
+		rest := &rk.Node{Name: "remainder", Bytes: follow[k:]}
+		kids := append([]*rk.Node{}, ref.Parent.Kids[:ref.Index]...)
+		kids = append(kids, grown, rest)
+		ref.Parent.Kids = append(kids, ref.Parent.Kids[ref.Index+2:]...)
+	case "len-minus-1":
+		// the field gives its last byte to whatever follows
+		body := n.Encode()[4:]
+		if len(body) < 1 {
+			op = "n.a."
+			break
+		}
+		shrunk := &rk.Node{Name: n.Name, Str: true, Bytes: body[:len(body)-1]}
+		spill := &rk.Node{Name: "spill", Bytes: body[len(body)-1:]}
+		kids := append([]*rk.Node{}, ref.Parent.Kids[:ref.Index]...)
+		kids = append(kids, shrunk, spill)
+		ref.Parent.Kids = append(kids, ref.Parent.Kids[ref.Index+1:]...)
+	case "mpint-pad":
+		var w rk.W
+		n.Bytes = w.MpintPadded(n.Mpint, rapid.IntRange(1, 3).Draw(rt, "pad")).B[4:]
+	}
+	field := n.Name
+	if op == "n.a." {
+		c.Case(false, "", "mode=grammar", "grammar:n.a.")
+		return
+	}
+	out := root.Encode()
+	if bytes.Equal(out, orig) {
+		c.Case(false, "", "mode=grammar", "grammar:identical")
+		return
+	}
+	cls, err := c41JudgeBytes(c, out, fmt.Sprintf("grammar re-encoding %s (%s) of field %s; subject %s, CA %s", op, detail, field, subj.typ, ca.typ), "grammar: "+op+" in "+field)
+	if err != nil {
+		rt.Fatalf("VF-VIOLATION: property=C41 %v", err)
+	}
+	c.Case(true, fmt.Sprintf("gr|%s|%s|%s|%s|%s", field, op, subj.typ, ca.typ, strings.SplitN(cls, ":", 2)[0]), "mode=grammar", "grammar-op:"+op, "grammar-field:"+field, "result:"+strings.SplitN(cls, ":", 2)[0])
+	if c.WantSample() {
+		c.Sample(map[string]any{"mode": "grammar", "field": field, "op": op, "detail": detail, "subject": subj.typ, "ca": ca.typ, "result": cls})
+	}
+}
+
 func c41Mutate(rt *rapid.T, c *ev.Collector, env *c41Env) {
 	rc, subj, ca := c41ValidRef(rt, env)
 	orig := rc.Bytes()
@@ -845,7 +984,7 @@ func c41Tool(t *testing.T, c *ev.Collector, env *c41Env) {
 			if !roundTrip || !got {
 				what := fmt.Sprintf("certificate issued by ssh-keygen -s (%s, %s subject, %s CA): byte-for-byte round trip=%v, %s accepted=%v (%v)", sp.descr, subj.typ, ca.typ, roundTrip, cc.method, got, rerr)
 				_, kinds, _ := rk.CanonCert(b)
-			if _, listed := ev.IsKnownFinding("F6"); listed && sp.f6 && len(kinds) > 0 {
+				if _, listed := ev.IsKnownFinding("F6"); listed && sp.f6 && len(kinds) > 0 {
 					c.Excluded()
 					c.Known("F6 (second face) ssh-keygen encodes an option given as 'name=' with an embedded empty string; ParsePublicKey/Marshal does not reproduce those bytes and CheckCert, verifying over the re-marshaled form, rejects the correctly signed certificate")
 					cls = "known-F6"
@@ -922,9 +1061,11 @@ func TestC41(t *testing.T) {
 	c41Tool(t, c, env)
 	rapid.Check(t, func(rt *rapid.T) {
 		switch m := rapid.IntRange(0, 9).Draw(rt, "mode"); {
-		case m < 5:
+		case m < 3:
+			c41Grammar(rt, c, env)
+		case m < 7:
 			c41Decision(rt, c, env)
-		case m < 8:
+		case m < 9:
 			c41Reencode(rt, c, env)
 		default:
 			c41Mutate(rt, c, env)
